@@ -21,8 +21,8 @@ def _decompress(comp, data):
         import lz4.frame
         return lz4.frame.decompress(data)
     if comp == "ZSTD":
-        import zstd
-        return zstd.decompress(data)
+        import zstandard
+        return zstandard.decompress(data)
     raise ValueError(comp)
 
 
